@@ -41,11 +41,33 @@ func (t *InProc) RoundTrip(req *http.Request) (*http.Response, error) {
 	if sreq.Host == "" {
 		sreq.Host = req.URL.Host
 	}
+	// net/http's transport sends exactly ContentLength bytes and fails the round trip when the
+	// body turns out longer or shorter; emulate that, a handler must never see more.
+	var clErr error
+	if req.Body != nil && req.Body != http.NoBody && req.ContentLength >= 0 {
+		data, rerr := io.ReadAll(io.LimitReader(req.Body, req.ContentLength+1))
+		switch {
+		case rerr != nil:
+			clErr = rerr
+			sreq.Body = io.NopCloser(io.MultiReader(bytes.NewReader(data), errReader{rerr}))
+		case int64(len(data)) > req.ContentLength:
+			clErr = fmt.Errorf("http: ContentLength=%d with Body length %d", req.ContentLength, len(data))
+			sreq.Body = io.NopCloser(bytes.NewReader(data[:req.ContentLength]))
+		case int64(len(data)) < req.ContentLength:
+			clErr = fmt.Errorf("http: ContentLength=%d with Body length %d", req.ContentLength, len(data))
+			sreq.Body = io.NopCloser(io.MultiReader(bytes.NewReader(data), errReader{io.ErrUnexpectedEOF}))
+		default:
+			sreq.Body = io.NopCloser(bytes.NewReader(data))
+		}
+	}
 	rec := httptest.NewRecorder()
 	t.Handler.ServeHTTP(rec, sreq)
 	if req.Body != nil {
 		io.Copy(io.Discard, req.Body)
 		req.Body.Close()
+	}
+	if clErr != nil {
+		return nil, clErr
 	}
 	res := rec.Result()
 	res.Request = req
@@ -72,6 +94,10 @@ func (t *InProc) RoundTrip(req *http.Request) (*http.Response, error) {
 	}
 	return resp, nil
 }
+
+type errReader struct{ err error }
+
+func (e errReader) Read([]byte) (int, error) { return 0, e.err }
 
 // Built is a stack ready for use.
 type Built struct {
